@@ -228,6 +228,12 @@ def lemma_circuits():
         c.make_block("B", ["k", "o"], ["o"])
         out.append((f"lemma:{t.name}", c))
         out.append((f"lemma:{t.name}:second-input-first", circgen.build(["b", "a"], [("k", t, ()), ("o", G.LT, ("k", "a"))], ["o"])))
+        # constants that carry operands (the circuit database stores constants that way)
+        for ops in (("a", "b"), ("b",), ("b", "b"), ("o2", "a")):
+            gates = [("o2", G.AND, ("a", "b")), ("k", t, ops), ("o", G.XOR, ("k", "o2"))]
+            c = circgen.build(["a", "b"], gates, ["o", "k"])
+            c.make_block("B", ["k", "o"], ["o"])
+            out.append((f"lemma:{t.name}{ops}:with-operands", c))
     return out
 
 
